@@ -17,7 +17,7 @@ use std::collections::HashMap;
 use std::sync::atomic::{AtomicU64, AtomicUsize, Ordering};
 use xor_name::XorName;
 
-fn pattern(len: usize, which: usize) -> Vec<u8> {
+pub fn pattern(len: usize, which: usize) -> Vec<u8> {
     match which {
         0 => vec![0u8; len],
         1 => (0..len).map(|i| (i % 251) as u8).collect(),
@@ -291,6 +291,7 @@ fn datamap_crossings(max: usize, limit: usize) -> (Vec<usize>, usize) {
 pub fn main(tier: Option<&str>) {
     // fix the download concurrency of this process before the client reads it
     std::env::set_var("CHUNK_DOWNLOAD_BATCH_SIZE", "64");
+    std::env::set_var("CHUNK_UPLOAD_BATCH_SIZE", "64");
     let run = Run::new("C14", "model_checking", tier);
     let max = *self_encryption::MAX_CHUNK_SIZE;
     run.rule(
@@ -313,12 +314,25 @@ pub fn main(tier: Option<&str>) {
     run.count("traces_validated_against_impl", t.executions.load(Ordering::Relaxed));
     run.extra("shipped_build", json!({"max_chunk_size": max, "max_stored_overhead": t.max_stored_overhead.load(Ordering::Relaxed)}));
     run.sample(json!({"len": 3 * max + 1, "pattern": "xorshift", "max_chunk_size": max}));
+    // the upload layer (data_put / data_put_public through a harness that is the network), shipped chunk size
+    {
+        let mut ut = crate::c14u::UpTotals { executions: 0, tree_nodes: 0, uploads_ok: 0, uploads_err: 0, retried: 0 };
+        crate::c14u::upload_layer(&run, &[3, 4, 8], &mut ut);
+        run.count("schedules", ut.executions);
+        run.count("states", ut.tree_nodes);
+        run.count("transitions", ut.tree_nodes);
+        run.count("traces_validated_against_impl", ut.executions);
+        run.extra("upload_layer_shipped_build", json!({"executions": ut.executions, "uploads_reported_ok": ut.uploads_ok, "uploads_reported_err": ut.uploads_err, "executions_with_a_repeated_put": ut.retried}));
+        if ut.uploads_ok == 0 && !mc_core::budget_spent() {
+            run.machinery_error("upload layer: no upload completed with success, the layer would be vacuous");
+        }
+    }
     // the small-chunk build
     let exe = run.root.join("harness/target-se/verif/vcheck-node");
     if !exe.exists() {
         run.machinery_error("harness/target-se/verif/vcheck-node is missing: bin/check C14 builds it with MAX_CHUNK_SIZE=1024");
     }
-    let out = std::process::Command::new(&exe).arg("C14-small").arg(if run.quick() { "quick" } else { "thorough" }).env("VERIF_ROOT", &run.root).env("CHUNK_DOWNLOAD_BATCH_SIZE", "3").output();
+    let out = std::process::Command::new(&exe).arg("C14-small").arg(if run.quick() { "quick" } else { "thorough" }).env("VERIF_ROOT", &run.root).env("CHUNK_DOWNLOAD_BATCH_SIZE", "3").env("CHUNK_UPLOAD_BATCH_SIZE", "3").output();
     let out = match out {
         Ok(o) => o,
         Err(e) => run.machinery_error(&format!("cannot run the small-chunk build: {e}")),
@@ -380,11 +394,15 @@ pub fn main_small(tier: Option<&str>) {
     let n_inputs = lengths.len() * 3;
     let n_nontrivial = lengths.iter().filter(|l| **l >= 3).count() * 3;
     let t = sweep(&run, lengths, 6);
+    let mut ut = crate::c14u::UpTotals { executions: 0, tree_nodes: 0, uploads_ok: 0, uploads_err: 0, retried: 0 };
+    let up_lengths: Vec<usize> = if run.quick() { vec![3, 100, 3 * max + 1, 4 * max + 1, 6000, 12 * max] } else { vec![3, 4, 100, 3 * max, 3 * max + 1, 4 * max + 1, 6000, 9 * max, 12 * max, 40 * max, 100 * max + 1] };
+    crate::c14u::upload_layer(&run, &up_lengths, &mut ut);
     let violations = run.dump_violations();
     println!(
         "C14-SUMMARY {}",
-        json!({"max_chunk_size": max, "inputs": n_inputs, "nontrivial_inputs": n_nontrivial, "executions": t.executions.load(Ordering::Relaxed), "tree_nodes": t.tree_nodes.load(Ordering::Relaxed), "max_concurrently_pending": t.max_pending.load(Ordering::Relaxed),
-               "multi_level_fetches": t.multi_level.load(Ordering::Relaxed), "max_stored_overhead": t.max_stored_overhead.load(Ordering::Relaxed), "datamap_shape_changes_at": crossings, "most_additional_level_chunks": most_additional, "violations": violations})
+        json!({"max_chunk_size": max, "inputs": n_inputs, "nontrivial_inputs": n_nontrivial, "executions": t.executions.load(Ordering::Relaxed) + ut.executions, "tree_nodes": t.tree_nodes.load(Ordering::Relaxed) + ut.tree_nodes, "max_concurrently_pending": t.max_pending.load(Ordering::Relaxed),
+               "multi_level_fetches": t.multi_level.load(Ordering::Relaxed), "max_stored_overhead": t.max_stored_overhead.load(Ordering::Relaxed), "datamap_shape_changes_at": crossings, "most_additional_level_chunks": most_additional,
+               "upload_layer": {"lengths": up_lengths, "executions": ut.executions, "uploads_reported_ok": ut.uploads_ok, "uploads_reported_err": ut.uploads_err, "executions_with_a_repeated_put": ut.retried}, "violations": violations})
     );
     mc_core::remove_scratch_root();
     std::process::exit(if violations.is_empty() { 0 } else { 1 });
